@@ -12,6 +12,9 @@ are universally closed over 0 <= j < n.
 """
 from __future__ import annotations
 
+import json
+import os
+
 import ast
 from typing import Any, Callable, Dict, List, Optional, Tuple
 
@@ -142,6 +145,72 @@ def mutated_receivers(body: List[ast.stmt]) -> List[str]:
     return out
 
 
+# ----------------------------------------------------------------------------- locals named by sidecar invariants
+LOCALS_FILE = os.path.join(os.path.dirname(os.path.dirname(os.path.abspath(__file__))), "invariant_locals.json")
+_locals_cache: Optional[Dict[str, Any]] = None
+
+
+def _assignments(node: ast.AST) -> List[Tuple[str, str]]:
+    """(target name, fingerprint of the right-hand side) of every single-name assignment, in source order"""
+    out: List[Tuple[str, str]] = []
+    for n in ast.walk(node):
+        if isinstance(n, ast.Assign) and len(n.targets) == 1 and isinstance(n.targets[0], ast.Name):
+            out.append((n.lineno, n.targets[0].id, ast.dump(n.value)))
+        elif isinstance(n, ast.AnnAssign) and isinstance(n.target, ast.Name) and n.value is not None:
+            out.append((n.lineno, n.target.id, ast.dump(n.value)))
+    out.sort()
+    return [(t, f) for _, t, f in out]
+
+
+def _load_locals() -> Dict[str, Any]:
+    global _locals_cache
+    if _locals_cache is None:
+        try:
+            _locals_cache = json.load(open(LOCALS_FILE))
+        except Exception:
+            _locals_cache = {}
+    return _locals_cache
+
+
+def record_local(info: Any, name: str) -> None:
+    """(PYVC_WRITE_LOCALS=1, pristine tree) remember how the local an invariant names is initialised"""
+    asg = _assignments(info.node)
+    mine = [f for t, f in asg if t == name]
+    if not mine:
+        return          # a parameter or loop target: renaming those is not handled
+    fp = mine[0]
+    order: List[str] = []
+    for t, f in asg:
+        if f == fp and t not in order:
+            order.append(t)
+    nth = order.index(name)
+    key = f"{info.relpath}|{info.qualname}"
+    import fcntl
+    with open(LOCALS_FILE + ".lock", "w") as lk:
+        fcntl.flock(lk, fcntl.LOCK_EX)
+        try:
+            data = json.load(open(LOCALS_FILE))
+        except Exception:
+            data = {}
+        if data.setdefault(key, {}).get(name) != {"rhs": fp, "nth": nth}:
+            data[key][name] = {"rhs": fp, "nth": nth}
+            with open(LOCALS_FILE, "w") as f:
+                json.dump(data, f, indent=1, sort_keys=True)
+
+
+def resolve_renamed(info: Any, name: str) -> Optional[str]:
+    ent = _load_locals().get(f"{info.relpath}|{info.qualname}", {}).get(name)
+    if not ent:
+        return None
+    same = [t for t, f in _assignments(info.node) if f == ent["rhs"]]
+    # de-duplicate re-assignments of the same name, keep order
+    order: List[str] = []
+    for t in same:
+        if t not in order:
+            order.append(t)
+    return order[ent["nth"]] if ent["nth"] < len(order) else None
+
+
 class LoopView:
     """What a sidecar invariant sees."""
 
@@ -153,6 +222,21 @@ class LoopView:
         self.ph_entry, self.alloc_entry = entry.ph, entry.alloc
 
     def _term(self, st: State, name: str) -> Any:
+        info = st.env.get("__func__") or getattr(self.ex, "current_info", None)
+        if name in st.env and os.environ.get("PYVC_WRITE_LOCALS") == "1" and info is not None:
+            record_local(info, name)
+        if name not in st.env and info is not None:
+            # the local may just have been renamed: find the assignment with the recorded fingerprint
+            new = resolve_renamed(info, name)
+            if new is not None and new in st.env:
+                self.ex.used_assumptions.add(f"sidecar invariant re-keyed after a rename: `{name}` is now `{new}` "
+                                             f"(matched by its initialising assignment)")
+                name = new
+        if name not in st.env:
+            # a sidecar invariant names the function's locals: after a rename the loop is simply without a usable
+            # invariant (the function is reported undecided), never a crash and never an alarm
+            raise Unsupported(f"the sidecar invariant of this loop refers to the local `{name}`, which does not exist "
+                              f"(renamed?): the invariant has to be re-keyed")
         v = st.env[name]
         if isinstance(v, CellRef):
             c = st.cells[v.id]
